@@ -96,6 +96,8 @@ DecFails(ev, r) ==
           \cup Bad(ev.fault # 0 \/ (ev.ret = n /\ ev.ys = xs), P, "decoded sequence differs from the encoded sequence")
           \cup Bad(ev.fault # 0 \/ ~takesBytes \/ ev.aux = E.written, P, "decoder consumed a different number of bytes than the encoder wrote")
           \cup Bad(ev.fault # 0 \/ c # "group" \/ ev.aux = E.written, "C16", "group decoder's size differs from the bytes its encoder wrote")
+          \cup Bad(ev.fault # 0 \/ E.meta.have = 0 \/ E.meta.count < 0 \/ ev.ret = E.meta.count, "C16",
+                   "the reported element count differs from the number of elements decoding yields")
           \cup Bad(ev.fault # 0 \/ c # "adaptive" \/ ev.aux = E.hdr[1], "C06", "decoder reports a different encoding than the first byte names")
      ELSE Bad(ev.fault = 0, "C13", "decoder wrote or read out of bounds with a capacity below the element count")
           \cup Bad(ev.fault # 0 \/ ev.ret = 0 \/ (ev.ret <= ev.cap /\ ev.ret = Len(ev.ys) /\ ev.ys = SubSeq(xs, 1, ev.ret)),
